@@ -330,6 +330,10 @@ def _install_base(ctx):
     @M.reg('Pin::as_mut', 'Pin::as_ref')
     def pin_as_mut(ip, pc, args, dt):
         pin = read_loc(args[0].loc)
+        while isinstance(pin, Ref):
+            pin = read_loc(pin.loc)
+        if not isinstance(pin, Agg) and hasattr(pin, 'deref_loc'):
+            return Agg('Pin', [Ref(pin.deref_loc(ip), True)])        # Pin<Box<T>> is represented by the box itself
         inner = pin.fields[0]
         if isinstance(inner, Ref):
             return Agg('Pin', [inner])
@@ -533,6 +537,7 @@ def poll_leaf(ip, loc, leaf):          # noqa: F811  (extends the leaf kinds abo
             if st.items:
                 v = st.items.pop(0)
                 write_loc(loc, Leaf('stream.next', leaf.data, True))
+                p.effect('stream-item', len(st.items))
                 return ready(some(ok(v)))
             if st.ends:
                 write_loc(loc, Leaf('stream.next', leaf.data, True))
